@@ -13,7 +13,7 @@ import itertools
 import z3
 
 from pyvc.core import SV, TBool
-from pyvc.task import Task
+from pyvc.task import Task, thorough
 
 MAXDIM = 4
 Q = "abelian_core.calc_fuse_group_info"
@@ -102,4 +102,4 @@ def _task(ndim):
 
 
 def tasks():
-    return [_task(n) for n in range(1, MAXDIM + 1)]
+    return [_task(n) for n in range(1, MAXDIM + 1 + (1 if thorough() else 0))]
